@@ -281,8 +281,8 @@ def carries_term(t, p, srcs, carrying):
     return False
 
 
-def rule_carried(ctx):
-    ctx.rule('R3', 'metadata carried by the propagating operations', 25)
+def rule_carried(ctx, only=None):
+    ctx.rule('R3', 'metadata carried by the propagating operations', 25 if only is None else len(only))
     P = ctx.P
     D = 'dimarray.core.dimarraycls.DimArray'
     ops = ['_getitem', 'compress', 'compress_axis', 'take_axis', 'cumsum', 'cumprod', 'diff', 'argmin', 'argmax', 'transpose', 'swapaxes', 'rollaxis',
@@ -292,12 +292,13 @@ def rule_carried(ctx):
     CARRY_NAMES.clear()
     CARRY_NAMES.update(carrying)
     fns = {}
-    for name in ops + ['_setitem']:
+    for name in (ops + ['_setitem'] if only is None else list(only)):
         try:
             fns[name] = P.method(D, name)
         except AnalysisError:
             ctx.violated('R3', D, 'DimArray.' + name, 'operation vanished')
-    fns['apply_along_axis'] = ctx.fn('dimarray.core.transform.apply_along_axis')
+    if only is None:
+        fns['apply_along_axis'] = ctx.fn('dimarray.core.transform.apply_along_axis')
     for name, fi in sorted(fns.items()):
         ctx.functions.add(fi.qualname)
         src = P_(fi.params[0])
@@ -340,6 +341,8 @@ def rule_carried(ctx):
             ctx.holds('R3', name + ' carries attrs on %d returning path(s)' % n_arr)
         else:
             ctx.undecide('R3', '%s: no DimArray-typed return recognised' % name)
+    if only is not None:
+        return
     # the reductions are descriptors bound to apply_along_axis (C08-R2); T -> transpose (C10-R1)
     # percentile
     fi = ctx.fn('dimarray.lib.stats.percentile')
